@@ -477,6 +477,12 @@ def rule_error_codes(prog):
     for k, want in sorted(spec.items()):
         out.add("error::ErrorCode", "T7 %s = %d" % (k, want), have.get(k) == want, prog.lsp.loc(e["sp"]),
                 "is %s" % have.get(k), ("T7",))
+    # the other codes of JSON-RPC 2.0 / LSP 3.17, where the server defines them
+    optional = {"ParseError": -32700, "InvalidParams": -32602, "InternalError": -32603, "UnknownErrorCode": -32001,
+                "RequestFailed": -32803, "ServerCancelled": -32802, "ContentModified": -32801, "RequestCancelled": -32800}
+    for k, want in sorted(optional.items()):
+        if k in have:
+            out.add("error::ErrorCode", "T7 %s = %d" % (k, want), have[k] == want, prog.lsp.loc(e["sp"]), "is %s" % have[k], ("T7",))
     return out
 
 
